@@ -578,7 +578,11 @@ func (r *runningStep) Close() error {
 	r.cancel()
 	r.wg.Wait()
 	r.logger.Debugf("Closing inputData channel in foreach step provider")
+	// ProvideStageInput checks the closed flag and sends on this channel while it holds the lock. Closing the channel
+	// under the same lock makes sure that a call that saw the step open has sent before the channel is closed.
+	r.lock.Lock()
 	close(r.executeInput)
+	r.lock.Unlock()
 	return nil
 }
 
